@@ -114,7 +114,8 @@ def obligations(facts, families=None):
             for lit in reach(fn["body"], rc):
                 refs = []
                 walk(lit, lambda x: refs.append(x.get("d")) if x.get("k") == "Ref" else None)
-                if any(r in fam for r in refs):
+                # the named flag, or (reach reads named conditions as what they name) the bit test itself
+                if any(r in fam for r in refs) or (masks & _mask_values(lit)):
                     gating.append(rc)
                     break
         if gating:
